@@ -9,11 +9,11 @@ INFO = {
                "end-of-input and start pass through the limiter (and every other stage) to the buffering stages "
                "behind it, exactly once; Master::go reaches complete on every non-error path; the limiter sits "
                "between sort and group/merge. The limiter itself, extracted as a finite machine by partial evaluation of "
-               "its process() body and composed exhaustively for skip 0..3 x take none/0..3 over streams of 9 rows, "
+               "its process() body and composed exhaustively for skip 0..6 x take none/0..6 over streams of 16 rows (0..12, 40 rows in the thorough tier), "
                "forwards exactly rows S..S+T-1 and answers Break exactly when the T-th row was forwarded; the sorter's "
                "top-N budget is spent only by rows that are actually stored (key present), one slot per row, and a "
                "full sorter evicts exactly one row after inserting. The collecting stage behind the limiter emits exactly once; the comparator the bounded sorter's ordered map relies on is the documented total order.",
-    "not_decided": "The limiter's behaviour beyond the explored parameters (skip, take <= 3, streams of 9 rows) as a "
+    "not_decided": "The limiter's behaviour beyond the explored parameters (skip, take <= 6, streams of 16 rows; <= 12 and 40 rows in the thorough tier) as a "
                    "run-time statement, and that the rows the sorter hands over are the S+T smallest (the comparator's "
                    "value logic).",
     "trusted": ["sa/tables/pipeline_order.toml"],
